@@ -725,6 +725,9 @@ def slice_body(body: list[ast.stmt], spec: Spec) -> list[ast.stmt]:
         if isinstance(s, ast.Expr) and isinstance(s.value, ast.Constant):
             continue
         always = any(isinstance(n, (ast.Return, ast.Raise)) for n in ast.walk(s))
+        if isinstance(s, ast.Expr) and isinstance(s.value, ast.Call):
+            d = _dotted(s.value.func) or ''
+            always = always or (d.startswith('self.') and d[5:] in spec.effect_methods)  # a recorded effect
         if always or (_stores(s) & needed):
             kept.append(s)
             needed |= _loads(s, spec.opaque)
